@@ -192,7 +192,7 @@ def run(ctx):
     from tf_pwa.fitfractions import cal_fitfractions, cal_fitfractions_no_grad
 
     # fit fractions are expensive (gradient tapes per batch): a smaller sample of the same events
-    nfe = 10 if quick else 30
+    nfe = 10 if quick else 16
     d3 = cfg3.data.cal_angle([x[:nfe] for x in p3])
     d4 = cfg4.data.cal_angle([x[:nfe] for x in p4])
     p4 = [x[:nfe] for x in p4]
@@ -200,7 +200,7 @@ def run(ctx):
     # scenarios of the specification: couplings (lattice) and batch class; chains = resonances here
     usable = [s for s in scen if any(tuple(c) != (0, 0) for c in s["coup"]) and tuple(s["resOf"]) == (1, 2, 3)]
     rng.shuffle(usable)
-    nsc = 3 if quick else 40
+    nsc = 3 if quick else 10
     batch_of = {1: 1, 2: 7, 3: N - 1, 4: N, 5: N + 3, 6: 2 * N}
     nff = 0
     res3 = ["R_BC", "R_BD", "R_CD"]
